@@ -194,6 +194,11 @@ Theorem C01_core_type_safety : forall (fns : list fdef) k e T,
 Proof. exact core_type_safety. Qed.
 Print Assumptions C01_core_type_safety.
 
+Theorem C01_core_program_safety : forall (fns : list fdef) k e T,
+  infer_prog fns k e = Some T -> exists v, eval fns k [] e = Some v /\ memb v T = true.
+Proof. exact core_program_safety. Qed.
+Print Assumptions C01_core_program_safety.
+
 (* non-vacuity: `f0 = #(A['int] | B) { v1 = $, v1 { | =A[v2] => [v2, 1] __integer_add__ | 7 } }`,
    `[A[4] f0, B f0, 0xababab __binary_length__]` is accepted at ['int, 'int, 'int] and evaluates
    to [5, 7, 3]; with the default reading the narrowed variable's field it is rejected *)
@@ -204,7 +209,7 @@ Definition ex_core_main : exp :=
   ETup None [ECall 0 (ETup (Some 0) [EInt 4%Z]); ECall 0 (ETup (Some 1) []); ELen (EBinLit 3)].
 
 Example C01_core_nonvacuous :
-  infer ex_core_fns 20 [] ex_core_main = Some (TyTup None [TyInt; TyInt; TyInt]) /\
+  infer_prog ex_core_fns 20 ex_core_main = Some (TyTup None [TyInt; TyInt; TyInt]) /\
   eval ex_core_fns 20 [] ex_core_main = Some (CTup None [CInt 5%Z; CInt 7%Z; CInt 3%Z]) /\
   infer [(TyUnion [TyTup (Some 0) [TyInt]; TyTup (Some 1) []],
           ELet 1 (EVar 0) (ECase 1 [(PTup (Some 0) [Some 2], EVar 2)] (EGet (EVar 1) 0)))]
